@@ -446,6 +446,8 @@ class Gen:
 
     def apply_rules(self, text, rules, path, line, item):
         import vxrules
+        vxrules._VEC_RECEIVERS.clear()
+        vxrules._VEC_RECEIVERS.update(self.unit.get('vec_receivers', []))
         for r in rules:
             fn = getattr(vxrules, "rule_" + r)
             text, apps = fn(text)
